@@ -114,7 +114,7 @@ def bitfield_decl(case, vis=None, docs=False):
     d = case["default"]
     const_name = None
     if d is not None and d["form"] == "const":
-        const_name = "DEFAULT_%s" % case["name"].upper()
+        const_name = d.get("const_name") or "DEFAULT_%s" % case["name"].upper()
         cty = "u%d" % case["storage"]
         if docs:
             lines.append("/// default value")
@@ -125,7 +125,7 @@ def bitfield_decl(case, vis=None, docs=False):
     if case.get("no_base"):
         args = []
     if d is not None:
-        val = const_name if const_name else lit(d["value"], d.get("radix", "hex"))
+        val = const_name if const_name else (d.get("text") or lit(d["value"], d.get("radix", "hex")))
         args.append("default = %s" % val if d["syntax"] == "=" else "default: %s" % val)
     if case["debug"]:
         args.append("debug")
